@@ -37,6 +37,8 @@ CONSTANTS
     Unlinks,        \* the environment may remove an entry's data file (file backend)
     StoreMayRefuse, \* the cache may refuse to keep a storable answer (empty body on the file backend, no room):
                   \* the answer is then handled like one that is not storable (every waiter fetches its own)
+    PolicyFlips,  \* the operator may change ignore_cache_control / force_default_max_age in the middle of a history
+                  \* (config cells are read at the moment of each decision: fetcher.go shouldCache / lifetime)
     Retry416,     \* retry_on_range_416: a 416 from the origin is retried once without the Range header
     Kinds,        \* request kinds exercised: subset of {"get","range","head","post"}
     Conds         \* client conditional headers exercised: subset of {"none","inm","ims","bad"}
@@ -52,12 +54,14 @@ VARIABLES
     creq,      \* [Clients -> request record]
     contacts,  \* [1..MaxX -> contact record]
     nextX,
+    pol,       \* [icc, fd]: the policy switches in force now (IgnoreCC / ForceDefault are their initial values)
     served,    \* ghost: [Res -> set of versions replaced by a 200 (must never be served again)]
     last       \* ghost: the deliveries made by the last step: set of response records
 
-vars == <<now, origin, store, flight, creq, contacts, nextX, served, last>>
+vars == <<now, origin, store, flight, creq, contacts, nextX, served, last, pol>>
 
-NoEntry   == [present |-> FALSE, ver |-> 0, form |-> "none", val |-> "none", storedAt |-> 0, expires |-> 0, lost |-> FALSE]
+NoEntry   == [present |-> FALSE, ver |-> 0, form |-> "none", val |-> "none", storedAt |-> 0, expires |-> 0, lost |-> FALSE, sy |-> "no"]
+\* sy: ghost, how the policy in force at the moment of storing marked the answer ("yes" / "either")
 \* lost: the entry is known but its data can no longer be opened (file backend: the file vanished behind the cache's back)
 NoFlight  == [active |-> FALSE, leader |-> 0, followers |-> {}, x |-> 0]
 Idle      == [st |-> "idle", r |-> 0, kind |-> "get", cond |-> "none", x |-> 0]
@@ -74,12 +78,13 @@ Init ==
     /\ nextX = 1
     /\ served = [r \in Res |-> {}]
     /\ last = {}
+    /\ pol = [icc |-> IgnoreCC, fd |-> ForceDefault]
 
 -----------------------------------------------------------------------------
 (* Reference semantics of the cache policy (C03, C04)                        *)
 
-Storable(f) == IF IgnoreCC THEN "yes" ELSE FormStorable[f]
-Life(f)     == IF ForceDefault \/ FormLife[f] = 0 THEN DefaultAge
+Storable(f) == IF pol.icc THEN "yes" ELSE FormStorable[f]
+Life(f)     == IF pol.fd \/ FormLife[f] = 0 THEN DefaultAge
                ELSE IF FormLife[f] < 0 THEN 0 ELSE FormLife[f]
 Fresh(e)    == e.present /\ now < e.expires
 
@@ -148,7 +153,7 @@ ReplyStatuses(x) ==
 
 NewEntry(r) ==
     [present |-> TRUE, ver |-> origin[r].ver, form |-> origin[r].form, val |-> origin[r].val,
-     storedAt |-> now, expires |-> now + Life(origin[r].form), lost |-> FALSE]
+     storedAt |-> now, expires |-> now + Life(origin[r].form), lost |-> FALSE, sy |-> Storable(origin[r].form)]
 
 \* Reply(x, status, st, lr): the origin answers; st resolves "either" forms: was the 200 stored?
 \* lr: when the answer to a flight's fetch cannot be served from the store, does the leader, like its
@@ -266,7 +271,16 @@ Disconnect(c) ==
                     /\ flight' = flight
     /\ UNCHANGED <<now, origin, store, nextX, served>>
 
-Next ==
+\* the operator changes the policy switches (dashboard PATCH /api/config or a config reload): nothing else moves; answers
+\* judged from now on are judged by the new values, entries already stored keep the lifetime they were given
+SetPolicy(i, f) ==
+    /\ PolicyFlips
+    /\ <<i, f>> # <<pol.icc, pol.fd>>
+    /\ pol' = [icc |-> i, fd |-> f]
+    /\ last' = {}
+    /\ UNCHANGED <<now, origin, store, flight, creq, contacts, nextX, served>>
+
+NextFixedPolicy ==
     \/ \E c \in Clients, r \in Res, k \in Kinds, cd \in Conds : Send(c, r, k, cd)
     \/ \E x \in 1..MaxX, s \in {200, 206, 304, 404, 416, 500}, st \in BOOLEAN :
           Reply(x, s, st, contacts[x].leader /\ contacts[x].kind = "get")
@@ -276,6 +290,8 @@ Next ==
     \/ \E r \in Res, f \in Forms, v \in ValKinds : OriginChange(r, f, v)
     \/ \E c \in Clients : Disconnect(c)
 
+Next == (NextFixedPolicy /\ UNCHANGED pol) \/ \E i, f \in BOOLEAN : SetPolicy(i, f)
+
 Spec == Init /\ [][Next]_vars
 
 -----------------------------------------------------------------------------
@@ -284,7 +300,8 @@ Spec == Init /\ [][Next]_vars
 \* C03: a response labelled HIT was served from a fresh entry without origin contact
 HitOnlyWhileFresh == \A rsp \in last : rsp.label = "HIT" => rsp.src = "store" /\ rsp.ttl > 0
 \* C04: only storable 200 GET responses are in the store
-StoredIsStorable == \A r \in Res : store[r].present => Storable(store[r].form) \in {"yes", "either"}
+\* (judged by the policy in force when the answer was stored: a later flip does not un-store what was legitimately kept)
+StoredIsStorable == \A r \in Res : store[r].present => store[r].sy \in {"yes", "either"}
 \* C05: at most one open leader contact per key; every waiting client is a follower of an active flight
 OneFetchPerFlight ==
     \A r \in Res : Cardinality({x \in 1..MaxX : contacts[x].open /\ contacts[x].leader /\ contacts[x].r = r}) <= 1
